@@ -272,3 +272,37 @@ pub fn global_root() -> PathBuf {
 pub fn run_global(inv: &Invocation) -> Option<CliOut> {
     Some(run(&global_cli()?, inv, Duration::from_secs(60)))
 }
+
+/// Creates a FIFO under the scratch directory and feeds `data` into it from a background thread as soon as
+/// a reader opens it (gives up after 20 s). Returns the path; remove it after the run.
+pub fn fifo_with(root: &Path, data: &[u8]) -> Option<PathBuf> {
+    use std::os::unix::ffi::OsStrExt;
+    use std::os::unix::io::FromRawFd;
+    let p = scratch(root).join(format!("fifo-{}", FILE_N.fetch_add(1, Ordering::Relaxed)));
+    let c = std::ffi::CString::new(p.as_os_str().as_bytes()).ok()?;
+    if unsafe { libc::mkfifo(c.as_ptr(), 0o600) } != 0 {
+        return None;
+    }
+    let data = data.to_vec();
+    std::thread::spawn(move || {
+        let start = Instant::now();
+        loop {
+            let fd = unsafe { libc::open(c.as_ptr(), libc::O_WRONLY | libc::O_NONBLOCK) };
+            if fd >= 0 {
+                // back to blocking writes
+                unsafe {
+                    let fl = libc::fcntl(fd, libc::F_GETFL);
+                    libc::fcntl(fd, libc::F_SETFL, fl & !libc::O_NONBLOCK);
+                }
+                let mut f = unsafe { std::fs::File::from_raw_fd(fd) };
+                let _ = f.write_all(&data);
+                return;
+            }
+            if start.elapsed() > Duration::from_secs(20) {
+                return;
+            }
+            std::thread::sleep(Duration::from_millis(1));
+        }
+    });
+    Some(p)
+}
